@@ -17,7 +17,10 @@ prop(
     ],
     rule="one evaluation = one invocation of the real binary. Each generated case (1-4 valid-vocabulary rule files incl. "
          "files/rules with parse failures and symlinks, x a generated .pint.hcl whose rule{} blocks give info/warning/bug/fatal "
-         "severities to annotation/label/for/keep_firing_for/name/aggregate/reject/report checks) is run 8-9 times: --fail-on in "
+         "severities to annotation/label/for/keep_firing_for/name/aggregate/reject/report checks; two thirds of the configs add a "
+         "'severity ladder': 2-3 rule{} blocks configuring the SAME check (same key/options/comment, so the same problem text) at "
+         "different severities, split by label value / kind / name / path or overlapping; groups carry 0-8 group-level labels, rules "
+         "a `team: <rule name>` label checked against {{ $alert }}) is run 8-9 times: --fail-on in "
          "{absent, info, warning, bug, fatal} plus repeats at one threshold, each with drawn --min-severity, --show-duplicates, "
          "--workers; `pint ci` cases build a two-commit git repository (base branch + one change commit). "
          "Non-trivial: the run completed linting, its report holds >= 2 distinct severities and at least one severity strictly "
